@@ -25,6 +25,9 @@ type MsgCase struct {
 	ID      *stats.B `json:"id,omitempty"`   // given to NewID (a rejected value leaves the ID unset)
 	Type    *stats.B `json:"type,omitempty"` // given to NewType
 	RetryNs int64    `json:"retry,omitempty"`
+	// CloneAt > 0: after that many append calls the message is cloned and the CLONE gets an extra
+	// line; the rest of the calls go to the original, which must not see the clone's line
+	CloneAt int `json:"cloneat,omitempty"`
 }
 
 var hostile = []string{
@@ -41,15 +44,13 @@ var genText = rapid.Custom(func(t *rapid.T) stats.B {
 		b.WriteString(stats.From(t, hostile, "tok"))
 	}
 	// occasionally a long run, with lengths swept around small-buffer sizes
-	if stats.Pct(t, "longrun") >= 93 { // (high values, so that a shrunk case has no long run)
+	if stats.Pct(t, "longrun") >= 90 { // (high values, so that a shrunk case has no long run)
 		var n int
 		switch stats.Pick(t, 6, "runkind") {
-		case 0, 1, 2:
-			n = 100 + stats.Pick(t, 41, "run100") // 100..140
-		case 3:
-			n = 250 + stats.Pick(t, 12, "run250")
+		case 0, 1, 2, 3:
+			n = 1 + stats.Pick(t, 300, "run300") // every length up to 300: fixed-size line buffers of any small size
 		case 4:
-			n = 505 + stats.Pick(t, 14, "run512")
+			n = stats.From(t, []int{505, 1017, 2041}, "runbase") + stats.Pick(t, 14, "runpow2")
 		default:
 			n = 4088 + stats.Pick(t, 14, "run4096")
 		}
@@ -71,6 +72,9 @@ func genMsg(nulFreeID bool) *rapid.Generator[MsgCase] {
 				op.Texts = append(op.Texts, genText.Draw(t, "text"))
 			}
 			m.Ops = append(m.Ops, op)
+		}
+		if nops > 0 && stats.Pct(t, "cloneat") >= 85 {
+			m.CloneAt = 1 + stats.Pick(t, nops, "cloneatn")
 		}
 		if stats.Pct(t, "hasid") < 60 {
 			id := genText.Draw(t, "id")
@@ -101,7 +105,18 @@ func multiLine(s string) bool { return strings.ContainsAny(s, "\r\n") }
 func buildMsg(c MsgCase) (*sse.Message, oracle.Msg, string) {
 	m := &sse.Message{}
 	var mod oracle.Msg
-	for _, op := range c.Ops {
+	var clone *sse.Message
+	defer func() {
+		// the clone is appended to only after the original has received all its lines: with a
+		// shared backing array that write would land in a slot the original already uses
+		if clone != nil {
+			clone.AppendData("line-that-belongs-to-the-clone-only")
+		}
+	}()
+	for i, op := range c.Ops {
+		if c.CloneAt > 0 && i == c.CloneAt {
+			clone = m.Clone()
+		}
 		texts := make([]string, len(op.Texts))
 		for i, s := range op.Texts {
 			texts[i] = string(s)
